@@ -19,3 +19,10 @@ CHECKS["C12"] = c("abci", "TestC12", dict(checks=60, timeout=600), dict(checks=5
                         "local wall clock must give identical result codes, validator updates and balances. Exploration: bounded histories; nondeterminism that needs a particular "
                         "goroutine interleaving inside one ABCI call is not forced.",
              level_note="In-process repetition (Go re-randomises map iteration order on every range); fresh-process repetition is not part of the quick tier. Trusts the chain simulator and rapid.")
+
+CHECKS["C15"] = c("abci", "TestC15", dict(checks=400, timeout=600), dict(checks=4000, shards=14, timeout=3000),
+             technique="model-based property-based testing: generated fee / signer / signature / balance variants delivered to the real application, balances compared with a by-construction authentication model",
+             design_ref="DESIGN.md §7 C15",
+             level_text="Each generated send is delivered in its own block on the real application; the model knows by construction whether it authenticates and covers the fee, and demands "
+                        "exact fee movement (once, payer -> fee collector) or no movement at all. Exploration over fee coin sets, single/multisig signers, signature defects, memo and balances.",
+             level_note="Message kind restricted to sends so that message effects are known from the result code; required fee taken as the fixed 10000 uPOKT of the default fee multipliers.")
